@@ -122,7 +122,7 @@ class Check:
             if not last or last.get("ev") != "begin":
                 raise ToolError("worker %s died outside a case (exit %s): %s" % (driver, p.returncode, p.stderr[-1500:]))
             ab = dict(last)
-            ab.update(ev="alloc" if driver == "alloc" else "result", variant=1, outcome="abort", ok=False, alloc_kb=0, ms=0,
+            ab.update(ev=driver, variant=1, outcome="abort", ok=False, alloc_kb=0, ms=0,
                       exit=p.returncode, stderr_head=p.stderr[:300])
             lines.append(json.dumps(ab))
             open(out, "w").write("\n".join(lines) + "\n")
@@ -266,6 +266,11 @@ class Check:
                 kf = self.match_finding(ev, r.violated)
                 if kf:
                     self.note_known(kf)
+                    # the finding names an input class: every event of that class is the same finding
+                    for k, e2 in enumerate(events):
+                        if k != r.line - 1 and all(e2.get(a) == b for a, b in kf.get("match", {}).items()):
+                            masked.add(k + 1)
+                            events[k] = {"ev": "masked", "case": e2.get("case"), "driver": e2.get("driver")}
                 else:
                     self.confirm(label, driver, dargs, module, cfg, r.violated, ev, driver_env, worker)
                     if len(self.violations) >= 3:
@@ -386,15 +391,19 @@ def run_replay(ck, rp):
     else:
         path, _ = ck.run_harness(rp["driver"], args, out_name="replay.ndjson", seed=rp["seed"], env=rp.get("driver_env"))
     events = [json.loads(x) for x in open(path)]
-    if rp.get("variant") is not None:
+    cfgtext = open(os.path.join(VERIF, "spec", rp["cfg"])).read()
+    stateful = "ChunkSize" not in cfgtext      # a history is validated as a whole
+    if rp.get("variant") is not None and not stateful:
         events = [e for e in events if e.get("variant") == rp["variant"]]
     if not events:
         return None, "the case produced no event on re-execution"
     with open(path, "w") as f:
         for e in events:
             f.write(json.dumps(e) + "\n")
-    r = ck.tlc(rp["module"], rp["cfg"], files=[(path, "trace.ndjson")], consts={"INVS": rp["invariant"], "ChunkSize": 1},
-               workers=2)
+    consts = {"INVS": rp["invariant"]}
+    if not stateful:
+        consts["ChunkSize"] = 1
+    r = ck.tlc(rp["module"], rp["cfg"], files=[(path, "trace.ndjson")], consts=consts, workers=2)
     if r.error:
         raise ToolError("TLC error during replay: %s" % r.error)
     if r.violated:
